@@ -248,6 +248,13 @@ func (f *frame) libCall(callee *ssa.Function, c *ssa.CallCommon, base string, re
 				r.tuple[1].term, sArg, sArg, r.tuple[0].term, bvLit(0, bitsOfSort(e.R.sortOf(r.tuple[0].t)))))
 		}
 		return r
+	case "encoding/hex.DecodeString":
+		used("DecodeString returns len(s)/2 bytes when it returns no error (contents not modelled)")
+		r := f.resultHavoc(base, resT)
+		if len(r.tuple) == 2 {
+			f.assume(fmt.Sprintf("(=> (= %s I_nil) (= (sl-len %s) (bvsdiv (slen %s) #x0000000000000002)))", r.tuple[1].term, r.tuple[0].term, arg(0)))
+		}
+		return r
 	case "strconv.ParseUint", "strconv.ParseFloat", "strconv.ParseBool", "strconv.Unquote":
 		used("pure parsing function (value, error) – result not modelled")
 		return f.resultHavoc(base, resT)
